@@ -1,5 +1,6 @@
 """C01 — peers derive the same keys and install mirror-image IPsec SAs."""
 from vf import histories, shadow, sim as S, walk
+from vf.ref import codec, xfrmdec
 
 RULE = ('pairs of compatible configurations (IKE ENCR key length x INTEG x PRF x DH group lists with DIFFERENT preference orders per side, '
         'ESP/AH, transport/tunnel with random subnets, IPv4/IPv6, PSK/RSA, child PFS on/off, cookie threshold 0 on a third of the runs) each '
@@ -330,6 +331,120 @@ def run_refusal(ck, w, seed):
     shadow.mirror_check(ck, sim, sc.a, sc.b, prefix='refusal:', require_equal_sets=True)
 
 
+def run_refusal_after_unread_ack(ck, w, seed):
+    """Two independent adverse events at one end: the answer to one of its DELSA requests cannot be read (recv: ENOBUFS; deletions tolerate that), and LATER the kernel
+    refuses a NEWSA of a negotiation. Every request is judged by its own answer: the refusal is noticed and the two SADs still mirror each other."""
+    kw = dict(dpd=600, lifetime=3600, ipsec_proto='ah' if w % 5 == 4 else 'esp')
+    sc = walk.Scenario(seed + w, [], kw, n_children=2)
+    sim = sc.sim
+    if not sc.ok:
+        return
+    who = sc.ep('AB'[w % 2])
+    k = (w // 2) % 4                      # which NEWSA after the deletion is refused
+    dk = (w // 8) % 2                     # which DELSA of the deletion loses its answer
+    sim.case.update({'family': 'kernel-refusal-after-an-unread-ack', 'endpoint': who.name, 'newsa_index': k, 'delsa_index': dk})
+    counter = {'newsa': 0, 'delsa': 0, 'armed': False}
+    orig_handle = who.kernel.handle
+
+    def handle(raw):
+        from vf.ref import xfrmdec
+        try:
+            m = xfrmdec.decode_request(bytes(raw))
+        except Exception:
+            m = None
+        if m and m['name'] == 'DELSA':
+            if counter['delsa'] == dk:
+                who.kernel.recv_faults[len(who.kernel.requests)] = 105
+                counter['armed'] = True
+            counter['delsa'] += 1
+        if m and m['name'] == 'NEWSA' and counter['armed']:
+            if counter['newsa'] == k:
+                who.kernel.fault_plan[len(who.kernel.requests)] = ('errno', (-22, -12, -17)[w % 3])
+            counter['newsa'] += 1
+        return orig_handle(raw)
+    who.kernel.handle = handle
+    sc.trigger('AB'[(w // 4) % 2], 'expire_hard')           # DELETE exchange: both ends remove one pair
+    sim.drain()
+    for act in ('acquire', 'expire_soft', 'acquire'):
+        sc.trigger('AB'[(w + 1) % 2], act)
+        sim.drain()
+    sc.settle()
+    who.kernel.handle = orig_handle
+    ck.count('refusal_after_unread_ack.runs')
+    if counter['armed'] and counter['newsa'] > k:
+        ck.count('refusal_after_unread_ack.runs_with_both_events')
+    ck.nontrivial(('refusal-after-unread-ack', who.name, k, dk, w % 3))
+    shadow.mirror_check(ck, sim, sc.a, sc.b, prefix='refusal-after-unread-ack:', require_equal_sets=True)
+
+
+def run_peer_refusal_after_unread_ack(ck, w, seed):
+    """The same two events seen from ONE daemon whose peer is an independent implementation (no second daemon shares this process's library state): the peer deletes a
+    CHILD_SA (the answer to one of the daemon's DELSA requests cannot be read), then asks for a new CHILD_SA and the kernel refuses one of the two NEWSA requests.
+    A response that reports success means both SAs of that CHILD_SA are in the daemon's kernel."""
+    from vf.ref import peer as refpeer, party as party_
+    from vf.checks import c02
+    rng = ck.rng('peer-refusal', w)
+    proto = 2 if w % 5 == 4 else 3
+    sim, a, b = S.make_pair(seed + w, ipsec_proto='ah' if proto == 2 else 'esp')
+    k = w % 2                              # which NEWSA of the negotiation is refused (1 = the last one)
+    dk = (w // 2) % 3                      # which DELSA of the deletion loses its answer (2 = none: control)
+    sim.case = {'family': 'peer:kernel-refusal-after-an-unread-ack', 'newsa_index': k, 'delsa_index': dk}
+    pr = refpeer.Peer(S.B4, S.A4, rng, c02.ID_B, c02.PSK_B, quirks=False)
+    if not pr.establish(sim, a) or not c02.established(a):
+        ck.count('peer_refusal.setup_failed')
+        return
+    inner = pr.auth_inner
+    ts_a = next(x for x in inner if x['type'] == codec.TSI)['selectors'][-1]
+    ts_p = next(x for x in inner if x['type'] == codec.TSR)['selectors'][-1]
+    transport = any(x['type'] == codec.NOTIFY and x.get('ntype') == 16391 for x in inner)
+    sa0 = next(x for x in inner if x['type'] == codec.SA)
+    _pr, chosen = party_.pick_suite(sa0['proposals'])
+    trs = [t for t in chosen if t['type'] != 4]
+    counter = {'newsa': 0, 'delsa': 0, 'armed': False}
+    orig_handle = a.kernel.handle
+
+    def handle(raw):
+        try:
+            m = xfrmdec.decode_request(bytes(raw))
+        except Exception:
+            m = None
+        if m and m['name'] == 'DELSA':
+            if counter['delsa'] == dk:
+                a.kernel.recv_faults[len(a.kernel.requests)] = 105
+            counter['delsa'] += 1
+            counter['armed'] = True
+        if m and m['name'] == 'NEWSA' and counter['armed']:
+            if counter['newsa'] == k:
+                a.kernel.fault_plan[len(a.kernel.requests)] = ('errno', (-22, -12, -17)[w % 3])
+            counter['newsa'] += 1
+        return orig_handle(raw)
+    a.kernel.handle = handle
+    try:
+        pr.delete_children(sim, a, [pr.children[0]])
+        pr.serve(sim, a)
+        mid, spi = pr.create_child(sim, a, proto, trs, [ts_p], [ts_a], transport)
+        pr.serve(sim, a)
+    finally:
+        a.kernel.handle = orig_handle
+    res = pr.responses.get(mid)
+    ck.count('peer_refusal.runs')
+    if res is None or counter['newsa'] <= k:
+        ck.count('peer_refusal.not_reached')
+        return
+    ck.count('peer_refusal.runs_with_a_refused_newsa' + ('_after_an_unread_ack' if dk < 2 else ''))
+    ck.nontrivial(('peer-refusal', k, dk, w % 3, proto))
+    sa = next((x for x in res if x['type'] == codec.SA and x.get('proposals')), None)
+    if sa is None:
+        ck.count('peer_refusal.refusal_reported_to_the_peer')
+        return
+    kp = 50 if proto == 3 else 51
+    want = [(S.B4, kp, bytes(spi)), (S.A4, kp, bytes(sa['proposals'][0]['spi']))]
+    missing = [repr(x) for x in want if x not in a.kernel.sad]
+    if missing:
+        ck.violation('responder-reported-a-child-sa-as-created-although-its-kernel-refused-one-of-the-two-sas' + (':after-an-unread-ack' if dk < 2 else ''),
+                     {'missing_in_the_responders_kernel': missing, 'refused_newsa': k, 'delsa_whose_answer_was_not_read': dk if dk < 2 else None}, sim.case)
+
+
 def run(ck):
     for w in range(72 if not ck.thorough() else 1440):
         if ck.mine(w):
@@ -337,6 +452,12 @@ def run(ck):
     for w in range(48 if not ck.thorough() else 960):
         if ck.mine(w):
             run_refusal(ck, w, ck.seed * 1000003 + 8807)
+    for w in range(60 if not ck.thorough() else 1200):
+        if ck.mine(w + 4):
+            run_peer_refusal_after_unread_ack(ck, w, ck.seed * 1000003 + 8831)
+    for w in range(48 if not ck.thorough() else 960):
+        if ck.mine(w + 2):
+            run_refusal_after_unread_ack(ck, w, ck.seed * 1000003 + 8819)
     for w in range(16 if not ck.thorough() else 160):
         if ck.mine(w):
             run_leading_zero(ck, w, ck.seed * 1000003 + 9911)
@@ -383,6 +504,8 @@ def verdict(ck):
     ck.floor('PFS child derivations', sum(v for k, v in c.items() if k.startswith('shadow.child.derived') and '.pfs.' in k), 40)
     ck.floor('AH derivations', sum(v for k, v in c.items() if k.startswith('shadow.child.derived') and k.endswith('.ah')), 20)
     ck.floor('NEWSA requests checked after answers with the transforms in another order', c['unusual_peer.newsa_checked'], 100)
+    ck.floor('runs in which the answer to a DELSA could not be read and a later NEWSA was refused, SADs compared afterwards', c['refusal_after_unread_ack.runs_with_both_events'], 30)
+    ck.floor('CHILD_SA requests of an independent peer during which a NEWSA was refused after the answer to a DELSA could not be read', c['peer_refusal.runs_with_a_refused_newsa_after_an_unread_ack'], 30)
     ck.floor('runs in which the kernel of one side refused a NEWSA, SADs compared afterwards', c['refusal.runs_with_a_refused_newsa'], 30)
     ck.floor('crossing-exchange walks', c['crossing.walks'], 100)
     ck.floor('lossy walks', c['lossy.walks'], 40)
